@@ -296,6 +296,8 @@ class WCS(object):
         elif p == "-TAN-SIP":
             if distort and self.distort["name"] != "none":
                 u, v = self.Distort(xdiff, ydiff)
+            else:
+                u, v = xdiff, ydiff
             u, v = self.ApplyCDMatrix(u, v)
         else:
             raise ValueError("projection '%s' not supported" % p)
